@@ -12,1296 +12,1320 @@ Definition show_fres (r : fres) : string :=
   end.
 Definition check (rs : list rune) : string := digest (show_fres (format_res rs)).
 Definition full (rs : list rune) : string := show_fres (format_res rs).
-Eval vm_compute in ("<<<M1404>>>" ++ check (runes_of_ascii "  // top
-	  options 
-
-    // c0
-	{ 
-      // c1
-
-	FixedStringPadFromLeft // c2a
-	  // c2b
-		=  // c3a
-	  // c3b
-    	true // c4
-    ; // c5
-	FixedStringPadChar 
-= // c7a
-	// c7b
-
-'0'	// c8
-  ; }
-packet// c11
-    	Leg 
-{  // c13
-InPrice0// c14a
-	// c14b
-{ 	 // c15
-      repeat	string
-// c17
-
-clOrdID // c18a
-    // c18b
-
-, 
-        // c19
-	int16 	 // c20
-msgKind
-    , 
-        // c22
-    	zchar[ 
-	    // c23
-	5	// c24a
-    // c24b
-]// c25a
-  // c25b
-
-Px
-	,}
-	    // c28
-	, 	 // c29a
-
-// c29b
-	i16
-	    // c30
-f1
-// c31
-
-  ,  
-  // c32
-  repeat
-    // c33
-f64  Side2 	 // c35a
-	// c35b
-	, 
-// c36
-string 
-// c37
-Acct ,  }	// c40
-  	packet 
-// c41
-	Cancel
-    {
-// c43
-
-zchar[	// c44
-      4 
-// c45
-	] // c46a
-  // c46b
-    clOrdID  // c47
-  ,
-	// c48
-string
-	seqNo
-    , Leg  // c52a
-  // c52b
-  	,// c53
-
-  @leftPad 	 // c54a
-    	// c54b
-
-( 
-	    // c55
-
-	'0' 	 // c56a
-  // c56b
-		)
-
-char[  // c58a
-
-// c58b
-    11// c59a
-    	// c59b
-	]OrderId// c61
-,	} 
-
-    // c63
-  packet // c64
-  	Quote 
-    // c65
-  {
-
-// c66
-	repeat 	 // c67a
-    	// c67b
-    char[  // c68a
-	// c68b
-    4 
-
-    // c69
-		]// c70a
-    // c70b
-	sym // c71a
-// c71b
-      , 
-
-// c72
-f64	// c73a
-      // c73b
-
-	OrderId  // c74
-	, repeat // c76
-    Leg, repeat 
-    // c79
-	i64 
-    // c80
-  f1  // c81a
-
-	// c81b
-	  , // c82
-	  int16
-    Note// c84a
-
-// c84b
-
-  ,zchar[// c86a
-	  // c86b
-	3
-	// c87
-]  count  // c89
-    ,	} // c91
-  root packet	// c93
-	Ack
-{ 	 // c95a
-  // c95b
-  	@leftPad// c96
-  ( ' '  // c98
-
-	) // c99a
-
-  // c99b
-char[
-
-    10 ]	// c102a
-	// c102b
-sym
-, InPx60	// c105
-  { 
-// c106
-  Cancel// c107a
-	// c107b
-    ,	// c108a
-
-	// c108b
-repeat char[ 	 // c110
-1] // c112a
-// c112b
-
-	f1 
-
-    // c113
-  , 	 // c114
-
-  string
-
-// c115
-Tail
-,
-    repeat// c118
-	  InNote55 
-
-// c119
-    { 
-    // c120
-		int8 	 // c121a
-  // c121b
-
-	count 	 // c122a
-
-// c122b
-	  ,// c123a
-    	// c123b
-  f64 
-      // c124
-    	f1 	 // c125a
-		// c125b
-,	// c126a
-  // c126b
-
-	repeat
-	    // c127
-	Cancel 
-// c128
-  , 
-// c129
-  	} 
-    // c130
-		,// c131
-
-  char[] 	 // c132a
-
-	// c132b
-		tag7 , 
-
-    // c134
-	repeat
-        // c135
-  string	// c136
-
-	msgKind
-
-    ,	// c138
-
-  }  // c139a
-  // c139b
-
-,	// c140a
-  // c140b
-    	u8 
-
-// c141
-
-lastPx , match// c144
-lastPx  // c145a
-  	// c145b
-    as 
-Body 	 // c147a
-	  // c147b
-    {152:// c150
-    	Quote,
-// c152
-    173	:// c154
-
-	Cancel// c155
-,  // c156a
-  	// c156b
-		4 // c157
-    :	// c158a
-    // c158b
-	Leg
-	    // c159
-	,
-    // c160
-} // c161a
-	// c161b
-    	, 
-  // c162
-
-  u16 Ref @calculatedFrom(
-""CRC32"" )
-    // c167
-, // c168a
-    // c168b
-  	} 
-
-// c169
- 
-")).
-Eval vm_compute in ("<<<M383>>>" ++ check (runes_of_ascii "options {
-	StringPrefixLenType = u16;
-	ArrayPrefixLenType = u16;
-}
-
-packet SampleBinary {
-    uint16 MsgType `" ++ [28040; 24687; 31867; 22411]%N ++ runes_of_ascii "`,
-    u16 BodyLenght @lengthOf(Body) `" ++ [28040; 24687; 20307; 38271; 24230]%N ++ runes_of_ascii "`,
-    match MsgType as Body {
-        1 : Logon,
-        2 : Logout,
-        3 : Heartbeat,
-        4 : RiskControlRequest,
-        5 : RiskControlResponse,
-    },
-        @calculatedFrom(""CRC32"")
-    u32 Ckecksum `" ++ [26657; 39564; 21644]%N ++ runes_of_ascii "`,
-}
-
-packet Logon {
-     @leftPad('0')
-    char[10] UserName `" ++ [29992; 25143; 21517]%N ++ runes_of_ascii "`,
-    string Password `" ++ [23494; 30721]%N ++ runes_of_ascii "`,
-    uint64 ClientId `" ++ [23458; 25143; 31471]%N ++ runes_of_ascii "ID`,
-    u16 HeartbeatInterval `" ++ [24515; 36339; 38388; 38548]%N ++ runes_of_ascii "`,
-}
-
-packet Logout {
-      @rightPad('0')
-    char[10] UserName `" ++ [29992; 25143; 21517]%N ++ runes_of_ascii "`,
-    uint64 ClientId `" ++ [23458; 25143; 31471]%N ++ runes_of_ascii "ID`,
-}
-
-packet Heartbeat {
-}
-
-packet RiskControlRequest {
-    string UniqueOrderId `" ++ [21807; 19968; 35746; 21333; 21495]%N ++ runes_of_ascii "`,
-    char[16] ClOrdID `" ++ [23458; 25143; 35746; 21333; 21495]%N ++ runes_of_ascii "`,
-    char[3] MarketID `" ++ [24066; 22330]%N ++ runes_of_ascii "id`,
-    char[12] SecurityID `" ++ [35777; 21048; 20195; 30721]%N ++ runes_of_ascii "`,
-    char Side `" ++ [20080; 21334; 26041; 21521]%N ++ runes_of_ascii "`,
-    char OrderType `" ++ [35746; 21333; 31867; 22411]%N ++ runes_of_ascii "`,
-    u64 Price `" ++ [20215; 26684]%N ++ runes_of_ascii "`,
-    u32 Qty `" ++ [25968; 37327]%N ++ runes_of_ascii "`,
-    repeat string ExtraInfo `" ++ [38468; 21152; 20449; 24687]%N ++ runes_of_ascii "`,
-    repeat SubOrder {
-    		char[16] ClOrdID `" ++ [23376; 35746; 21333; 21495]%N ++ runes_of_ascii "`,
-    		u64 Price `" ++ [23376; 35746; 21333; 20215; 26684]%N ++ runes_of_ascii "`,
-    		u32 Qty `" ++ [23376; 35746; 21333; 25968; 37327]%N ++ runes_of_ascii "`,
-    	},
-}
-
-packet RiskControlResponse {
-    string UniqueOrderId `" ++ [21807; 19968; 35746; 21333; 21495]%N ++ runes_of_ascii "`,
-    i32 Status `" ++ [29366; 24577]%N ++ runes_of_ascii "`,
-    string Msg `" ++ [32467; 26524; 20449; 24687]%N ++ runes_of_ascii "`,
-    repeat Detail,
-}
-
-packet Detail {
-    string RuleName `" ++ [35268; 21017; 21517; 31216]%N ++ runes_of_ascii "`,
-    u16 Code `" ++ [21407; 22240; 20195; 30721]%N ++ runes_of_ascii "`,
-}")).
-Eval vm_compute in ("<<<M331>>>" ++ check (runes_of_ascii "packet o
-// trailing space 
-//x
-{	repeat pack stringy `two words`	,
-    char[	1 ]
-leftPad , }
-/// triple
-// @lengthOf(
-MetaData msg_type{ zchar[  1] Pad`" ++ [28040; 24687; 31867; 22411]%N ++ runes_of_ascii "` , uint32 //x
-charz//
-`a\`
-,  A u8x `// not a comment` ,
-    // `tick` ""quote"" 'q'
-    } packet
-options1
-    {@calculatedFrom( """ ++ [233]%N ++ runes_of_ascii "t" ++ [233]%N ++ runes_of_ascii """
-) @rightPad( )
-Pad
-@lengthOf(// packet A { u8 x, }
-pack ) `` ,
-match
-    A
-as
-    a1 { 255  :
-msg_type  ,
-}
-,
-// " ++ [27880; 37322]%N ++ runes_of_ascii "
-//
-@lengthOf( tag )  @tag( 00 )@rightPad(' '
-) match Header	as f32a { """" : float , } // @lengthOf(
-, char[] T@calculatedFrom(
-    // packet A { u8 x, }
-    ""packet""	) , repeat asx /// triple
-msg_type`crlf
-line` , @calculatedFrom( ""\" ++ [233]%N ++ runes_of_ascii """ ) @tag( // trailing space 
-7
-)
-int64 o
-`line1
-line2`,
-    // trailing space 
-    } // " ++ [128512]%N ++ runes_of_ascii " emoji
-root
-packet// packet A { u8 x, }
-crc  { int8
-body
-@lengthOf( matchKey ) `two words` ,
-    //	t
-    @lengthOf( u8x )
-zchar[
-0123456789
-    ] i8i8,
-} MetaData  a1 { falsey _x
-`
-` ,
-char[] body`" ++ [28040; 24687; 31867; 22411]%N ++ runes_of_ascii "` ,
-// packet A { u8 x, }
-//
-zchar[ 42] trueish `
-` , float trueish,  metadata //x
-o `{ , }`, }")).
-Eval vm_compute in ("<<<M107>>>" ++ check (runes_of_ascii "packet falsey { i64_ ,	charz  {
-match Packet  as Pad { ""\n"" :Packet
-    , ""// no comment"" // " ++ [128512]%N ++ runes_of_ascii " emoji
-:
-f32a// `tick` ""quote"" 'q'
-, [
-    /// triple
-    3  ,4294967296,
-    10 ,//
-7 , 10	]
-: u
-, // trailing space 
-""`tick`"": u8x
-,
-[ 7 , ""it's"" ]:Packet, 0 : len
-    //
-    , }
-    , }, /// triple
-@lengthOf(	f32a) char[ 3 ]options1
-    @lengthOf(
-Pad)
-, zchar[ 0123456789 ]// trailing space 
-T ``
-,
-} packet
-Pad
+Eval vm_compute in ("<<<M1367>>>" ++ check (runes_of_ascii "// top
+options // c0a
+  // c0b
 {
-    // c
-    o roots `{ , }` // " ++ [128512]%N ++ runes_of_ascii " emoji
-, }packet f32a {
-_x//
-@calculatedFrom(	""x y"") //x
-,@tag( 65535
-) //	t
-char pack @lengthOf( zchar  ) ,repeat //
-int64 falsey  ,repeat len {match A
-    as rootA {[ 42,  ""\n"" ]:
-Z9_ , }
-,repeat i16
-A , repeat zchar[ 65535 ] tag `
-` ,
-f64 float
-    @lengthOf( f32a ) ``  ,
-// `tick` ""quote"" 'q'
-// packet A { u8 x, }
-} , x
-    u8x
-, @tag(  42	) repeat As Packet	, @lengthOf( Pad
-    )repeat
-    f64 rootA ,// @lengthOf(
-}")).
-Eval vm_compute in ("<<<M322>>>" ++ check (runes_of_ascii "packet leftPad { //
-i8 stringy @calculatedFrom( """ ++ [128512]%N ++ runes_of_ascii """	) , int@calculatedFrom(
-// c
-// " ++ [128512]%N ++ runes_of_ascii " emoji
-""a	b"" )
-`it's` ,
-    @leftPad () @tag( 0123456789
-    )int32 u8x , @lengthOf(A )float64	u128	@calculatedFrom(
-    ""a\\"" ), //x
-} options { //x
-Pad = 0 u =
-    ' ' }MetaData
-    a1 { char[]
-metadata	`// not a comment`
-    // @lengthOf(
-    ,
-}	packet
-Foo { @tag(
-42 )	repeat BodyLength ,
-    int8 metadata`{ , }` ,@leftPad ( // c
-)// " ++ [27880; 37322]%N ++ runes_of_ascii "
-@calculatedFrom(//
-""`tick`""
-    ) @calculatedFrom(	""a	b""	) u32 stringy , @lengthOf( roots ) zchar[ 0 ] msg_type @lengthOf( i64_
-)`tab	here`	,i8 Header	`{ , }`
-, char[ 7
-] trueish @lengthOf(	packetx
-    )
-, u64	charz `
-`
-    ,
-    zchar[
-//	t
-// c
-65535]
-repeatCount
-`it's`
-    ,match // @lengthOf(
-calculatedFrom as calculatedFrom  {""a	b""
-: roots 42	: MetaDataX	,
-},
-}")).
-Eval vm_compute in ("<<<M1689>>>" ++ check (runes_of_ascii "root packet asx {
-    // `tick` ""quote"" 'q'
-    f32a,
-    @calculatedFrom(""abc"")
-    zchar[65535] metadata `
-        `,
-    @calculatedFrom(""CRC32"")
-    Header `doc`,
-    match f32a as msg_type {
-        [""\n""] : charz,
-        // @lengthOf(
-        0123456789 : pack,
-        //x
-        [
-            ""packet"", """", ""`tick`"", ""CRC32"", ""\n"",
-            ""it's"", ""it's"", 4294967296
-        ] : charz,
-        42 : leftPad,
-        [
-            255, 7, ""packet"", ""{,}"", ""\" ++ [233]%N ++ runes_of_ascii """,
-            ""1"", ""1""
-        ] : msg_type,
-        [""" ++ [128512]%N ++ runes_of_ascii """] : i64_,
-    },
-}
-
-packet body {
-}
-
-root packet i64_ {
-    uint16 Header @calculatedFrom(""" ++ [233]%N ++ runes_of_ascii "t" ++ [233]%N ++ runes_of_ascii """) ``,
-    float64 string_ @calculatedFrom(""`tick`""),
-    repeat zchar[1] packetx `it's`,
-}//	t")).
-Eval vm_compute in ("<<<M184>>>" ++ check (runes_of_ascii "packet options1{@leftPad	( '0' )	@rightPad ( // a // b
-'\x00'
-) @tag(
-255
-) /// triple
-repeat string As `
-`,
-@calculatedFrom(
-"""" )@calculatedFrom(//x
-""x y"" )
-a1
-{ Foo {trueish { tag
-@lengthOf(  i8i8 ) `doc`
-, }
-, zchar[
-00 ] f32a @lengthOf( calculatedFrom) , repeat
-zchar[ 1
-    ] stringy`{ , }`
-    , },uint64  repeatCount	@lengthOf(// `tick` ""quote"" 'q'
-asx
-    ) , char[ 42
-] lengthOf @calculatedFrom(// c
-""packet""), char[ 10 ] calculatedFrom @lengthOf( BodyLength ), } ,
-asx`// not a comment`,  } options { matchKey =""" ++ [128512]%N ++ runes_of_ascii """ falsey = ""a\""b"" ; A // a // b
-= ""CRC32"" msg_type
-    =
-    //x
-    """ ++ [233]%N ++ runes_of_ascii "t" ++ [233]%N ++ runes_of_ascii """	; } MetaData o//	t
-{
-} packet
-Pad{  }")).
-Eval vm_compute in ("<<<M1420>>>" ++ check (runes_of_ascii "options  { 
-As = 	 // trailing space 
-
-	zchar[
-    4294967296]; } //	t
-packet len// packet A { u8 x, }
-    	{
-@lengthOf(
-
-    _x )
-
-match
-    // c
-
-lengthOf	as 
-	//
-	// `tick` ""quote"" 'q'
-  string_  // c
-	{
-
-[  4294967296
-    ]  : i64_ ""a	b""	: o  ,  }
-,
-    leftPad@calculatedFrom( 
-""`tick`"")
-	    // trailing space 
-    	// `tick` ""quote"" 'q'
-,
-
-@leftPad( '\x00'
-
-    )  repeat
-
-charz/// triple
-	msg_type , repeat
-	i8 Foo,
-}
-	packet
-
-msg_type
-    { 
-    //x
-
-// @lengthOf(
-
-  @leftPad(  '0'  )
-	u64
-repeatCount @calculatedFrom( """ ++ [28040; 24687]%N ++ runes_of_ascii """), 	 // packet A { u8 x, }
-  }
-
-")).
-Eval vm_compute in ("<<<M1800>>>" ++ check (runes_of_ascii "options {
-    LittleEndian = true;
-    // c5
-}// c6a
-
-// c6b
-packet Logon {
+    // c1
+LittleEndian // c2a
+  // c2b
+= // c3
+true // c4
+; // c5
+StringPrefixLenType
+    // c6
+= u16 // c8
+;
     // c9
-    u8 x,// c12
-}// c13a
-
-// c13b
-packet Logout {
-    u16 reason,
-    // c19
+ArrayPrefixLenType = u8 ; // c13
+FixedStringPadChar =
+    // c15
+' '
+    // c16
+; // c17
+} // c18a
+  // c18b
+packet // c19a
+  // c19b
+Ack { @leftPad (
+    // c23
+' ' )
+    // c25
+char[ 5 // c27
+] // c28
+lastPx
+    // c29
+, zchar[ // c31
+4 // c32
+] // c33a
+  // c33b
+count , // c35a
+  // c35b
+repeat InVenue30 // c37a
+  // c37b
+{ char[ // c39a
+  // c39b
+9 // c40a
+  // c40b
+] // c41a
+  // c41b
+Side2 // c42a
+  // c42b
+, char[ // c44
+12 // c45a
+  // c45b
+] venue
+    // c47
+, // c48
+} // c49a
+  // c49b
+,
+    // c50
+} // c51a
+  // c51b
+packet // c52
+Order
+    // c53
+{ // c54a
+  // c54b
+int16 Note , // c57a
+  // c57b
+repeat // c58
+InAcct28
+    // c59
+{ // c60
+InSym3 // c61a
+  // c61b
+{ // c62
+Ack // c63a
+  // c63b
+,
+    // c64
+char[ // c65a
+  // c65b
+4 // c66
+] // c67
+lastPx // c68
+, char[
+    // c70
+1 // c71a
+  // c71b
+] venue , // c74
+f32 // c75a
+  // c75b
+Ref // c76
+, // c77
+} , repeat // c80
+InTag729 {
+    // c82
+char[
+    // c83
+3 // c84a
+  // c84b
+] // c85a
+  // c85b
+Side2
+    // c86
+,
+    // c87
+uint64
+    // c88
+Acct // c89a
+  // c89b
+, // c90a
+  // c90b
+char[] // c91a
+  // c91b
+price // c92
+, zchar[ // c94a
+  // c94b
+9 ] Note // c97
+,
+    // c98
+zchar[ 9 // c100
+] // c101
+venue // c102
+,
+    // c103
+} // c104a
+  // c104b
+, char[] // c106a
+  // c106b
+count // c107a
+  // c107b
+, // c108a
+  // c108b
+Ack
+    // c109
+,
+    // c110
+char[] // c111
+Px // c112a
+  // c112b
+, // c113
+} , // c115a
+  // c115b
+u8 // c116a
+  // c116b
+f1
+    // c117
+,
+    // c118
+Ack // c119
+, // c120a
+  // c120b
+} // c121a
+  // c121b
+packet // c122a
+  // c122b
+Fill // c123a
+  // c123b
+{ zchar[ // c125a
+  // c125b
+7 ]
+    // c127
+x
+    // c128
+, // c129a
+  // c129b
+Order // c130
+, // c131a
+  // c131b
+@leftPad (
+    // c133
+' ' // c134
+) char[ 9
+    // c137
+] // c138a
+  // c138b
+venue // c139a
+  // c139b
+,
+    // c140
+string // c141a
+  // c141b
+count
+    // c142
+, char[] // c144
+Flags , // c146a
+  // c146b
+} // c147
+packet Logon
+    // c149
+{ // c150
+} // c151a
+  // c151b
+packet
+    // c152
+Reject { Order ,
+    // c156
+char[] // c157a
+  // c157b
+sym , // c159a
+  // c159b
+} // c160
+root // c161a
+  // c161b
+packet Quote // c163a
+  // c163b
+{ string // c165a
+  // c165b
+price ,
+    // c167
+i64 // c168
+Flags , // c170a
+  // c170b
+repeat Fill // c172a
+  // c172b
+, // c173
+zchar[ // c174
+9
+    // c175
+] // c176
+x , // c178
+f32 // c179a
+  // c179b
+lastPx // c180a
+  // c180b
+, // c181a
+  // c181b
+repeat // c182a
+  // c182b
+Ack // c183a
+  // c183b
+,
+    // c184
+}
+    // c185
+")).
+Eval vm_compute in ("<<<M309>>>" ++ check (runes_of_ascii "
+MetaData Logon{zchar[ 7
+    ] BodyLength , char Header ,
+    // @lengthOf(
+    int8
+    x_y_z// @lengthOf(
+`u8 x,`
+, i32 falsey , //
+int16 lengthOf`two words`
+, } root packet options1 { repeat	A BodyLength
+,
+metadata { u64 calculatedFrom `` , } ,
+body { i16
+    matchKey ,	uint16
+packetx
+    `// not a comment` ,
+a1 // 50% %s
+`` ,repeat packetx
+    // " ++ [27880; 37322]%N ++ runes_of_ascii "
+    ,
+}  , body	u8x `a\`	, @tag(
+10
+    ) @tag(00 )
+    // c
+    @rightPad('\x00' ) repeat tag { i16 u
+    `" ++ [233]%N ++ runes_of_ascii "`, }
+,
+// a // b
+// c
+@lengthOf(u )@calculatedFrom( """ ++ [128512]%N ++ runes_of_ascii """ ) i16 falsey  ,
+    f32a	@lengthOf(
+uint8x )
+    `it's`, asx
+    @lengthOf(// 50% %s
+Header )`two words` ,
+    // `tick` ""quote"" 'q'
+    @lengthOf( A//
+)@lengthOf( int ) @calculatedFrom(
+    ""1"")
+    char[] uint8x , x_y_z @lengthOf( Foo)
+`crlf
+line` ,
+    } packet// @lengthOf(
+stringy{ repeat  string len , @calculatedFrom(
+    ""{,}"" )
+    repeat
+    o//
+{ u64 float , } ,
+    match	i64_ as
+    Pad
+{
+[ 1 ] :	roots , ""it's""
+    // packet A { u8 x, }
+    : // @lengthOf(
+uint8x 1 :
+    MetaDataX ,[255 ,
+""a\""b""  , // `tick` ""quote"" 'q'
+""" ++ [233]%N ++ runes_of_ascii "t" ++ [233]%N ++ runes_of_ascii """ //	t
+, 65535 ,4294967296 , 7 , 0123456789
+] :len
+, 255 : metadata
+, ""it's"" :calculatedFrom ,
+    // `tick` ""quote"" 'q'
+    }, @lengthOf( msg_type )
+falsey @calculatedFrom( """ ++ [28040; 24687]%N ++ runes_of_ascii """
+) ,	repeat char[] trueish , zchar[ 1 ]A ,// `tick` ""quote"" 'q'
+repeat metadata {zchar[
+// c
+//x
+7 ]	Pad  , }	,
+    @tag( 3//
+) i32 body
+`u8 x,` , } // trailing space ")).
+Eval vm_compute in ("<<<M1455>>>" ++ check (runes_of_ascii "packet x {
 }
 
-root packet Frame {
-    // c24
-    u64 Kind,// c27
-    u64 Kind2,
-    // c30
-    match Kind as Body {
-        // c35a
-        // c35b
-        1 : Logon,
-        // c39
-        [2, 3, 4] : Logout,
-        // c49
-        100 : Logon,
-        // c53
+options {
+    Packet = string
+    Packet = ' '
+    zchar = false;
+    matchKey = false
+}
+
+packet f32a {
+    int64 options1 @calculatedFrom(""packet"") `// not a comment`,
+    Z9_ {
+        charz {
+            match BodyLength as trueish {
+                ""\" ++ [233]%N ++ runes_of_ascii """ : charz,
+                65535 : roots,
+                [4294967296, ""a\""b"", ""abc""] : f32a,
+                ""\" ++ [233]%N ++ runes_of_ascii """ : int,
+                // packet A { u8 x, }
+                ""x y"" : u8x,
+            },
+            repeat int8 u,
+            repeat _x {
+                msg_type `100% of %d`,
+                metadata `crlf
+                line`,
+                f32 roots,
+                char[] f32a @lengthOf(Pad),// c
+            },
+        },
     },
-    // c55
-    match Kind2 as Trailer {
-        // c60
-        0 : Logout,
+    match T as calculatedFrom {
+        [0, """ ++ [128512]%N ++ runes_of_ascii """] : Pad,
+        // packet A { u8 x, }
+        [
+            """", ""x y"", """ ++ [233]%N ++ runes_of_ascii "t" ++ [233]%N ++ runes_of_ascii """, ""a\""b"", 4294967296,
+            """ ++ [28040; 24687]%N ++ runes_of_ascii """
+        ] : o,
+        [42] : float,
     },
-    // c66
+    match zchar as _x {
+        ""`tick`"" : packetx,
+    },
+    // 50% %s
+    repeat As {
+        int @lengthOf(msg_type),
+        i64 roots `line1
+        line2`,// c
+        repeat u16 Packet `" ++ [233]%N ++ runes_of_ascii "`,
+        f64 charz,
+    },
+    int32 i8i8 `say ""hi""`,
 }")).
-Eval vm_compute in ("<<<M33>>>" ++ check (runes_of_ascii "packet
-int {zchar[ 007 ] metadata ,i16	matchKey,
-@rightPad('0')
-@lengthOf(
-    metadata) repeat zchar[
-    10 ]
-//
-// " ++ [128512]%N ++ runes_of_ascii " emoji
-charz
-    // trailing space 
-    ,	} packet int { @tag( 65535 )
-u32 x @calculatedFrom(
-    ""x y""// " ++ [27880; 37322]%N ++ runes_of_ascii "
-),match pack as MetaDataX
+Eval vm_compute in ("<<<M1594>>>" ++ check (runes_of_ascii "  options	{ i8i8 
+= 
+	    // " ++ [27880; 37322]%N ++ runes_of_ascii "
+float64	//
+  ; pack = ""// no comment"" ;
+
+    len
+
+= zchar[
+	42] ;
+A =
+    65535
+
+    //	t
+    	;
+
+    BodyLength =
+
+255 ; 
+}root packet
+uint8x
 {
-    [	""abc"" ,
-    // " ++ [27880; 37322]%N ++ runes_of_ascii "
-    0123456789 , ""`tick`"" ] :
-body}	, @lengthOf( zchar ) match leftPad as u8x{
-    10:  u8x ,
-[
-007
-    // " ++ [128512]%N ++ runes_of_ascii " emoji
-    , 255
-    ]
+	@tag( 255
+) @calculatedFrom(  /// triple
+	""a\""b"")
+
+@leftPad
+( 
+)  string i64_
+, }
+root
+	packet	tag
+
+{char[]  BodyLength
+
+    , tag
+
+    {repeat zchar[ 10
+	]	roots
+`" ++ [28040; 24687; 31867; 22411]%N ++ runes_of_ascii "` 
+,},
+    BodyLength
+	{
+        // `tick` ""quote"" 'q'
+  repeat 
+msg_type
+    {
+	zchar[  
+      // " ++ [27880; 37322]%N ++ runes_of_ascii "
+    10]
+
+    Header
+@calculatedFrom(
+""`tick`"") , 
+repeat chars ,  f32a@calculatedFrom(
+
+    ""packet""
+
+    ) 
+, 
+Header
+	{ 
+roots
+	@calculatedFrom(	""" ++ [28040; 24687]%N ++ runes_of_ascii """
+    )
+,
+}
+,
+}
+,
+
+match
+
+body as  
+      // `tick` ""quote"" 'q'
+	calculatedFrom
+{
+
+    65535
+:calculatedFrom
+
+    00
+:
+
+    i64_	[ ""\n"" 
+,
+""a\""b"" 
+	// c
+
+  // a // b
+  ]  
+  // @lengthOf(
+: 
+a1
+,  
+  // " ++ [128512]%N ++ runes_of_ascii " emoji
+  65535: charz,
+    [ 3
+    ,
+	""" ++ [28040; 24687]%N ++ runes_of_ascii """]
+    : 
+_x
+
+,
+
+""1""
+
     :
-    chars	"""" :
-    body ,42 : trueish , }, }")).
-Eval vm_compute in ("<<<M374>>>" ++ check (runes_of_ascii "MetaData BodyLength { zchar[ 65535 ]	As `crlf
-line`
-, u16 charz , body len,
-zchar msg_type ,uint64 metadata
-,}
-root packet //
-matchKey
-    {
-repeat i8i8  `{ , }` ,
-} MetaData a1 { i8i8 Pad`it's`	,
-// trailing space 
-// `tick` ""quote"" 'q'
-int64
-    // " ++ [128512]%N ++ runes_of_ascii " emoji
-    roots `doc` ,
-Foo BodyLength `u8 x,` , } packet	_x
-{ lengthOf
-    {
-pack `" ++ [28040; 24687; 31867; 22411]%N ++ runes_of_ascii "` ,
-string_ // @lengthOf(
-, repeat //
-rootA len , zchar[ 1
-] u8x,} , }
+
+    pack
+	,
+
+    } ,
+
+} 
+,float32	lengthOf
+	`doc`
+    , }
 ")).
-Eval vm_compute in ("<<<M1262>>>" ++ check (runes_of_ascii "// top
+Eval vm_compute in ("<<<M305>>>" ++ check (runes_of_ascii "options { i8i8 =
+    // " ++ [27880; 37322]%N ++ runes_of_ascii "
+    float64//
+;
+pack =
+    ""// no comment"" ; len =
+    zchar[ 42 ] ;A
+    = 65535
+    //	t
+    ;
+    BodyLength	= 255
+;
+    }
+root
+packet	uint8x { @tag(
+255 )
+    @calculatedFrom( /// triple
+""a\""b"" ) @leftPad ( ) string
+i64_,} root packet tag
+{char[]
+BodyLength , tag {	repeat zchar[10] roots`" ++ [28040; 24687; 31867; 22411]%N ++ runes_of_ascii "` ,
+} , BodyLength {
+    // `tick` ""quote"" 'q'
+    repeat msg_type
+{zchar[
+    // " ++ [27880; 37322]%N ++ runes_of_ascii "
+    10 ]
+Header @calculatedFrom( ""`tick`"" ) , repeat chars, f32a @calculatedFrom(""packet"") , Header {roots @calculatedFrom( """ ++ [28040; 24687]%N ++ runes_of_ascii """ ) ,
+}  , },match
+    body as
+    // `tick` ""quote"" 'q'
+    calculatedFrom {
+    65535 :calculatedFrom 00 :
+i64_ [ ""\n"" ,""a\""b""
+// c
+// a // b
+]
+    // @lengthOf(
+    :
+a1 ,
+    // " ++ [128512]%N ++ runes_of_ascii " emoji
+    65535 : charz , [ 3
+    ,
+""" ++ [28040; 24687]%N ++ runes_of_ascii """ ] :
+    _x	,""1""
+:
+    pack , },
+    } , float32
+    lengthOf	`doc` ,}
+")).
+Eval vm_compute in ("<<<M1646>>>" ++ check (runes_of_ascii "packet pack {
+    char[] falsey,
+    @lengthOf(zchar)
+    @rightPad()
+    float roots,
+    @calculatedFrom(""// no comment"")
+    i64 u8x,
+    @lengthOf(lengthOf)
+    @leftPad()
+    @tag(4294967296)
+    Packet,
+    match uint8x as Foo {
+        ""abc"" : string_,
+    },
+    Logon {
+        repeat char[65535] matchKey `100% of %d`,
+        zchar[0123456789] leftPad @calculatedFrom(""// no comment""),
+        string len,
+    },// @lengthOf(
+    u64 body @lengthOf(string_),
+    // c
+    Z9_ charz `tab	here`,
+    //x
+}
+
+MetaData u {
+    lengthOf chars `" ++ [28040; 24687; 31867; 22411]%N ++ runes_of_ascii "`,
+    char[007] options1 `100% of %d`,
+    body u8x,
+    float32 body `u8 x,`,
+}
+
+packet T {
+}
+
+packet i8i8 {
+    string packetx,
+    tag falsey,
+}")).
+Eval vm_compute in ("<<<M1777>>>" ++ check (runes_of_ascii "  options
+    { 
+LittleEndian 
+=
+true ;
+StringPrefixLenType
+	=
+u32
+	;ArrayPrefixLenType
+=	u8  ;} packet
+Heartbeat{	string msgKind
+    , }packet
+    Logon{repeat Heartbeat, 
+repeat string  Px,	uint8
+Tail ,
+char[]  f1, }
+    packet Cancel	{
+
+zchar[4 ]
+OrderId	, Logon
+,repeat	InMsgkind98 {
+repeat u8 tag7, repeat InFlags69
+    {
+char[]
+Note 
+,char[]  lastPx ,	char[
+	11	]Ref , Logon
+
+, },
+	repeat Heartbeat
+
+, }
+    ,
+    zchar[7 ]
+Px
+
+    , u32 seqNo
+
+,
+
+    }
+    root  packet Reject
+{ i16
+tag7
+
+,char[  3
+    ]
+
+Qty  ,
+InRef42 {
+u8 pad0,} , uint32
+
+f1  , zchar[ 7
+    ]
+OrderId
+    , zchar[
+8
+
+]
+
+x
+
+    , }
+
+")).
+Eval vm_compute in ("<<<M255>>>" ++ check (runes_of_ascii "packet
+msg_type { @lengthOf(
+trueish
+) @calculatedFrom( //	t
+""packet""
+    ) @rightPad
+( ) trueish
+chars
+    // c
+    ,	}
+root
+packet i64_
+    { } packet	charz
+{// " ++ [128512]%N ++ runes_of_ascii " emoji
+repeat float64 // @lengthOf(
+u8x
+`{ , }`
+    , roots @lengthOf( BodyLength )
+    ``
+,	repeat string
+Header
+    //x
+    , Z9_ @lengthOf(
+    A ) ,
+    @rightPad () repeat len
+`" ++ [233]%N ++ runes_of_ascii "`,
+    float64 Foo @lengthOf( Header  ) ,repeat char[
+0 ] charz// c
+`say ""hi""`, string a1 , @leftPad
+    (
+    '0') metadata
+    { zchar[ 42 ]  i8i8
+    @lengthOf( lengthOf)
+,
+//x
+/// triple
+} ,
+} options	{ }
+")).
+Eval vm_compute in ("<<<M1947>>>" ++ check (runes_of_ascii "MetaData i8i8 {
+    char[00] msg_type `say ""hi""`,
+}// " ++ [128512]%N ++ runes_of_ascii " emoji
+
+MetaData charz {
+    zchar[0] options1,
+}
+
+packet MetaDataX {
+    // packet A { u8 x, }
+    Header u8x `// not a comment`,
+    x rootA,
+    @lengthOf(falsey)
+    @lengthOf(i8i8)
+    match MetaDataX as stringy {
+        [""" ++ [128512]%N ++ runes_of_ascii """, ""a\""b""] : i64_,
+    },
+}
+
+MetaData msg_type {
+    string zchar `doc`,
+    //
+}
+
+MetaData leftPad {
+    uint8 x `crlf
+    line`,
+    i32 msg_type `// not a comment`,
+    char[255] leftPad,// a // b
+    char[] u,//	t
+}")).
+Eval vm_compute in ("<<<M1541>>>" ++ check (runes_of_ascii "packet body {
+    @leftPad('\x00')
+    @tag(42)
+    @tag(65535)
+    repeat tag u `a\`,
+    Z9_,//	t
+    @tag(10)
+    //	t
+    // @lengthOf(
+    f32 msg_type `// not a comment`,
+    int16 matchKey @calculatedFrom(""a	b"") `it's`,
+}
+
+packet T {
+    zchar[7] matchKey,
+    falsey @lengthOf(stringy) `crlf
+        line`,
+}
+
+root packet options1 {
+    @calculatedFrom(""{,}"")
+    matchKey @calculatedFrom(""`tick`""),
+    zchar[0] stringy @lengthOf(int),
+}
+
+packet msg_type {
+}")).
+Eval vm_compute in ("<<<M1135>>>" ++ check (runes_of_ascii "// top
+packet // c0
+_x // c1
+{ // c2
+match // c3
+Foo // c4
+as // c5
+Z9_ // c6
+{ // c7
+""a	b"" // c8
+: // c9
+Pad // c10
+, // c11
+} // c12
+, // c13
+repeat // c14
+x // c15
+`// not a comment` // c16
+, // c17
+@rightPad // c18
+( // c19
+' ' // c20
+) // c21
+@calculatedFrom( // c22
+""a\\"" // c23
+) // c24
+metadata // c25
+MetaDataX // c26
+, // c27
+@tag( // c28
+0 // c29
+) // c30
+Logon // c31
+int // c32
+`two words` // c33
+, // c34
+} // c35
+")).
+Eval vm_compute in ("<<<M1273>>>" ++ check (runes_of_ascii "// top
 packet // c0
 B // c1
 {
     // c2
-u8
-    // c3
-a , } root packet // c8a
+u8 a // c4
+,
+    // c5
+} // c6a
+  // c6b
+root
+    // c7
+packet // c8a
   // c8b
+P // c9a
+  // c9b
+{ u8 K // c12a
+  // c12b
+, // c13
+u64 // c14a
+  // c14b
+L // c15
+@lengthOf( // c16
+Body // c17
+) // c18
+, match // c20a
+  // c20b
+K // c21
+as // c22
+Body { // c24a
+  // c24b
+1 // c25a
+  // c25b
+: // c26
+B , // c28a
+  // c28b
+} , // c30a
+  // c30b
+} // c31a
+  // c31b
+")).
+Eval vm_compute in ("<<<M1977>>>" ++ check (runes_of_ascii "  options
+	{LittleEndian = 
+true
+
+    ;
+	StringPrefixLenType 
+=u16
+;  ArrayPrefixLenType
+    =  u16
+
+;
+	FixedStringPadFromLeft =  true;  FixedStringPadChar = '0'	;}
+
+packet
+Leg{  u16 
+Flags , 
+u8  price, 
+}packet
+Quote
+{ uint16
+
+    count,
+InNote89 {repeat
+    Leg, }
+	,  } 
+root packet Ack{	char[ 
+3
+]price
+	,	u64
+
+sym
+,
+
+zchar[
+
+    1	]
+
+    Tail ,}
+")).
+Eval vm_compute in ("<<<M43>>>" ++ check (runes_of_ascii "packet u {match x_y_z as
+leftPad
+    { 0123456789
+    :	x_y_z	,},@rightPad ()
+    u64 trueish ,	repeat u64 trueish
+`line1
+line2`	,@rightPad ( ) // a // b
+char[ 255
+    ]
+    _x
+`// not a comment`
+// packet A { u8 x, }
+// 50% %s
+,	zchar[7]leftPad ,match chars  as
+    //x
+    lengthOf {1
+    :o 42  : chars ,} // trailing space 
+,}
+")).
+Eval vm_compute in ("<<<M1288>>>" ++ check (runes_of_ascii "// top
+options
+    // c0
+{ // c1a
+  // c1b
+LittleEndian // c2
+= // c3a
+  // c3b
+true ; } root // c7
+packet
+    // c8
 P // c9a
   // c9b
 {
     // c10
-u8 // c11
-K , // c13
-u64 // c14a
-  // c14b
-L @lengthOf( // c16a
-  // c16b
-Body
-    // c17
-) , match // c20a
-  // c20b
-K as // c22a
-  // c22b
-Body // c23
-{ // c24a
-  // c24b
-1 : // c26a
-  // c26b
-B // c27a
-  // c27b
-,
-    // c28
-} // c29
-, // c30
-}
-    // c31
-")).
-Eval vm_compute in ("<<<M1794>>>" ++ check (runes_of_ascii "
-
-  options 
-{LittleEndian  =true
-	;StringPrefixLenType =
-	u16 ;FixedStringPadChar
-= ' '
-;
-}
-	packet
-Logon 
-{
-@leftPad
-( '0' )  char[  10
-
-] tag7
-
-    ,
-    } root
-	packet Ack
-{
-
-    int32
-
-    Px
-
-, uint16	count
-,
-    string
-	Qty
-
-, string	OrderId
-
-,
-
-    string  Flags  , u8	x ,
-
-match
-	x
-as Body
-
-{[
-
-58, 169
-] 
-:
-
-    Logon
-	, },}
-")).
-Eval vm_compute in ("<<<M1567>>>" ++ check (runes_of_ascii "
-
-  MetaData chars
-    {  uint64	A
-	,msg_type
-asx 
-// c
-	,
-Z9_ a1 
-, 
-stringy i64_ 	 //
-  `doc`,	}
-    packet 
-    /// triple
-// a // b
-
-x_y_z{  } options
-{ float  // c
-  =
-float32
-    rootA 
-=
-false ;  repeatCount 	 // c
-    =char[
-10
-    ];
-}
-
-    packet	Z9_ { zchar[ 007] 
-	    //	t
-charz 	 // c
-, }	//x
-")).
-Eval vm_compute in ("<<<M1138>>>" ++ check (runes_of_ascii "// top
-MetaData // c0
-leftPad // c1
-{ // c2
-chars // c3
-MetaDataX // c4
-, // c5
-} // c6
-packet // c7
-repeatCount // c8
-{ // c9
-char[ // c10
-255 // c11
-] // c12
-uint8x // c13
-`" ++ [233]%N ++ runes_of_ascii "` // c14
-, // c15
-} // c16
-MetaData // c17
-pack // c18
-{ // c19
-As // c20
-Foo // c21
-, // c22
-} // c23
-")).
-Eval vm_compute in ("<<<M1253>>>" ++ check (runes_of_ascii "// top
-packet // c0
-Inner // c1
-{ // c2
-u8 // c3a
-  // c3b
-a // c4
-,
-    // c5
-} // c6
-root // c7
-packet // c8a
-  // c8b
-P // c9
-{ // c10a
-  // c10b
-repeat // c11a
+u16 // c11a
   // c11b
-Inner items // c13
-, // c14
-u8
-    // c15
-x , // c17a
+a // c12a
+  // c12b
+, // c13
+u32 Sum // c15a
+  // c15b
+@calculatedFrom( // c16a
+  // c16b
+""CRC32""
+    // c17
+) // c18
+, } ")).
+Eval vm_compute in ("<<<M1279>>>" ++ check (runes_of_ascii "packet B // c1a
+  // c1b
+{
+    // c2
+u8 // c3
+a // c4
+, string // c6a
+  // c6b
+s , } root // c10a
+  // c10b
+packet
+    // c11
+P // c12a
+  // c12b
+{ // c13
+u16 // c14
+L @lengthOf( // c16
+B // c17a
   // c17b
-} // c18
+)
+    // c18
+, // c19
+B , // c21
+u8 t , } // c25a
+  // c25b
 ")).
-Eval vm_compute in ("<<<M21>>>" ++ check (runes_of_ascii "packet  Logon //	t
-{pack	_x
-    ,
-Z9_ i8i8  `" ++ [28040; 24687; 31867; 22411]%N ++ runes_of_ascii "`	, } options
-    { tag	= 4294967296 ; As = string
-    ; rootA = true ; }root packet f32a { //x
-@leftPad
-// " ++ [27880; 37322]%N ++ runes_of_ascii "
-// c
-(' ') repeat _x`" ++ [233]%N ++ runes_of_ascii "`	, @rightPad ( )i8i8 len,}
-
-")).
-Eval vm_compute in ("<<<M1334>>>" ++ check (runes_of_ascii "packet
-    u128 {	u8 a 
-, } root packet
-
-    Msg {
-u8 
-k
-
-    ,  u24	{
-
-    u8
-Hi 
+Eval vm_compute in ("<<<M432>>>" ++ check (runes_of_ascii "packet
+    asx { @calculatedFrom(
+""""  ) @tag( 255 )repeat repeat
+// packet A { u8 x, }
+// trailing space 
+int16 u8x
 ,
-u16  Lo ,
-} 
-, repeat
-
-    i24 {u32	q
-, 
-} , u128 , u16
-
-    float32x, string	s
-	,  } ")).
-Eval vm_compute in ("<<<M1640>>>" ++ check (runes_of_ascii "
-packet
-A 
-{
-	u8 a
-, }	packet
-	B
-
-    {
-    u16
-    b
-,	} root 
-packet  P{ 
-u8
-K
-
-, match
-    K
-as
-
-    M
-	{
-	[
-1	,2 ] 
-:
-	A  ,3 :
-	B
-,  7
-    : 
-A
-    ,
-}
-	,	}")).
-Eval vm_compute in ("<<<M1714>>>" ++ check (runes_of_ascii "
-root
-packet
-	lengthOf{ @leftPad	( ' '  // c
-
-	)
-
-repeat char
-MetaDataX
-
-,	}
-MetaData Pad  { 
-msg_type
-rootA 	 // trailing space 
-
-  `// not a comment` ,	}
-")).
-Eval vm_compute in ("<<<M513>>>" ++ check (runes_of_ascii "packet uint8x
-{ match pack
-    as msg_type	{
-    0123456789 :	float
-}
-,
-} packet //	t
-a1
-    { } options {packetx
-    = '\x00'	; float32= ""a	b""  ; }
-")).
-Eval vm_compute in ("<<<M482>>>" ++ check (runes_of_ascii "packet uint8x
-{ match pack
-    as msg_type	{
-    0123456789 :	float
-}
-,
-} packet //	t
-a1
-    { } { options packetx
-    = '\x00'	; u128= ""a	b""  ; }
-")).
-Eval vm_compute in ("<<<M473>>>" ++ check (runes_of_ascii "packet uint8x
-{ match pack
-    as msg_type	{
-    0123456789 :	float
-}
-,
-} packet //	t
-a1
-    ] } options {packetx
-    = '\x00'	; u128= ""a	b""  ; }
-")).
-Eval vm_compute in ("<<<M702>>>" ++ check (runes_of_ascii "// @lengthOf(
-packet i8i8 { u128 o , }
-options { MetaDataX = true;
-    BodyLength =""packet"" x_y_z= 007
-crc //x
-= ""abc"" ""abc"" ;
-    msg_type =
-i16 }")).
-Eval vm_compute in ("<<<M520>>>" ++ check (runes_of_ascii "packet uint8x
-{ match pack
-    as msg_type	{
-    0123456789 :	float
-}
-,
-} packet //	t
-a1
-    { } options {packetx
-    = '\x00'	; u128=   ; }
-")).
-Eval vm_compute in ("<<<M648>>>" ++ check (runes_of_ascii "// @lengthOf(
-packet i8i8 { u128 o , }
-options { = MetaDataX true;
-    BodyLength =""packet"" x_y_z= 007
-crc //x
-= ""abc"" ;
-    msg_type =
-i16 }")).
-Eval vm_compute in ("<<<M1605>>>" ++ check (runes_of_ascii "
-packet A {
-
-    match  k	as
-
-    n { [  1 
-,  ""bb"" , 007 
-,  ""d""
-,
-5
-
-    ,
-
-    ""f"",
-7 , ""h""
-
-] :
-    B 
-,
-2
-    :C  }
-    , }
-
-")).
-Eval vm_compute in ("<<<M1298>>>" ++ check (runes_of_ascii "packet
-A
-{ 
-u8 a,
-}
-
-packet
-    B {
-
-u16  b
-,} 
-root	packet	P
-{ u8
-K
-
-,
-
-    match	K
-
-as M	{1
-    :
-A,
-
-1	: 
-B 
-, }
-,
-
-    }
-
-")).
-Eval vm_compute in ("<<<M259>>>" ++ check (runes_of_ascii "  MetaData repeatCount // c
-{char[
-42 // " ++ [27880; 37322]%N ++ runes_of_ascii "
-]
-    // " ++ [128512]%N ++ runes_of_ascii " emoji
-    MetaDataX ,
-    // @lengthOf(
-    zchar[
-// " ++ [27880; 37322]%N ++ runes_of_ascii "
+@tag(
+    //
+    007 )
+    @tag( 0
+    /// triple
+    ) @tag( 1) u
+    @lengthOf( T ),
+// `tick` ""quote"" 'q'
 //x
-0] asx , }
-")).
-Eval vm_compute in ("<<<M171>>>" ++ check (runes_of_ascii "options { Pad=	'\x00' ; u
-= false  repeatCount
-    = false ;// trailing space 
-T
-=// a // b
-""CRC32"" ;
-    a1 = ""it's""}
-")).
-Eval vm_compute in ("<<<M1163>>>" ++ check (runes_of_ascii "MetaData leftPad { chars MetaDataX , } packet repeatCount { char[ // c
-255 ] uint8x `" ++ [233]%N ++ runes_of_ascii "` , } MetaData pack { As Foo , }")).
-Eval vm_compute in ("<<<M1665>>>" ++ check (runes_of_ascii "  packet
+} // " ++ [128512]%N ++ runes_of_ascii " emoji")).
+Eval vm_compute in ("<<<M469>>>" ++ check (runes_of_ascii "packet
+    asx { @calculatedFrom(
+""""  ) @tag( 255 )repeat
+// packet A { u8 x, }
+// trailing space 
+int16 u8x
+,
+@tag(
+    //
+    007 )
+    float64 0
+    /// triple
+    ) @tag( 1) u
+    @lengthOf( T ),
+// `tick` ""quote"" 'q'
+//x
+} // " ++ [128512]%N ++ runes_of_ascii " emoji")).
+Eval vm_compute in ("<<<M418>>>" ++ check (runes_of_ascii "packet
+    asx { @calculatedFrom(
+""""  ) 255 @tag( )repeat
+// packet A { u8 x, }
+// trailing space 
+int16 u8x
+,
+@tag(
+    //
+    007 )
+    @tag( 0
+    /// triple
+    ) @tag( 1) u
+    @lengthOf( T ),
+// `tick` ""quote"" 'q'
+//x
+} // " ++ [128512]%N ++ runes_of_ascii " emoji")).
+Eval vm_compute in ("<<<M396>>>" ++ check (runes_of_ascii "packet
+    asx  @calculatedFrom(
+""""  ) @tag( 255 )repeat
+// packet A { u8 x, }
+// trailing space 
+int16 u8x
+,
+@tag(
+    //
+    007 )
+    @tag( 0
+    /// triple
+    ) @tag( 1) u
+    @lengthOf( T ),
+// `tick` ""quote"" 'q'
+//x
+} // " ++ [128512]%N ++ runes_of_ascii " emoji")).
+Eval vm_compute in ("<<<M1965>>>" ++ check (runes_of_ascii "packet Sub {
+    u8 a,
+    @calculatedFrom(""CRC16"")
+    i64 SubSum,
+}
 
-A
+root packet Frame {
+    u16 MsgType,
+    u16 BodyLen @lengthOf(Body),
+    Sub Body,
+    string note,
+    @calculatedFrom(""CRC16"")
+    i64 Checksum,
+    u8 tail,
+}")).
+Eval vm_compute in ("<<<M148>>>" ++ check (runes_of_ascii "packet zchar
+    {
+@lengthOf(
+charz
+    ) zchar @lengthOf(Header ) `
+`
+    , u8 calculatedFrom ,	@calculatedFrom(  ""x y""	) u128 @calculatedFrom( ""it's""  )
+    ,  }options {float=	007
+    uint8x =
+""`tick`"" ;  }
+")).
+Eval vm_compute in ("<<<M202>>>" ++ check (runes_of_ascii "packet
+leftPad
+//
+// " ++ [27880; 37322]%N ++ runes_of_ascii "
+{ string_
+u , match
+u as crc { [ ""a\\""
+    ]: f32a
+// 50% %s
+//
+,  [ 7 ]: chars,0 : //	t
+packetx// @lengthOf(
+,  } ,
+    @calculatedFrom(""// no comment"" )u64 tag
+, }")).
+Eval vm_compute in ("<<<M1552>>>" ++ check (runes_of_ascii "
+MetaData u  { 
+}	MetaData
+o
 {
-    match
+	float uint8x `100% of %d`,u8x
+repeatCount	,
 
-    k	as
-n{
-	[
-1
-,22
-,	""c c""
+    string_	leftPad  ,
+	i32 Foo, int64 x`two words`  ,
+	calculatedFrom stringy `a\`
 
-,
-4 ,
-
-    5
-,
-
-""f"" ,
-7, 8
-] :
-    B 2	:  C }
     , }
 ")).
-Eval vm_compute in ("<<<M973>>>" ++ check (runes_of_ascii "packet A {
+Eval vm_compute in ("<<<M722>>>" ++ check (runes_of_ascii "packet
+crc
+{repeat  Foo A  `u8 x,` ,	@lengthOf( uint8x ) string
+matchKey @lengthOf( stringy ) ) `a\`
+,
+    // c
+    }
+MetaData chars{
+leftPad
+    //	t
+    crc
+`" ++ [233]%N ++ runes_of_ascii "`
+,}")).
+Eval vm_compute in ("<<<M693>>>" ++ check (runes_of_ascii "MetaData u
+    { } MetaData o
+{ float uint8x
+`100% of %d` ,repeatCount u8x, string_ leftPad
+, i32
+    Foo , int64 x `two words` , calculatedFrom
+stringy @x`a\` ,
+}
+")).
+Eval vm_compute in ("<<<M599>>>" ++ check (runes_of_ascii "MetaData u
+    { } MetaData o
+{ float uint8x
+`100% of %d` )repeatCount u8x, string_ leftPad
+, i32
+    Foo , int64 x `two words` , calculatedFrom
+stringy `a\` ,
+}
+")).
+Eval vm_compute in ("<<<M641>>>" ++ check (runes_of_ascii "MetaData u
+    { } MetaData o
+{ float uint8x
+`100% of %d` ,repeatCount u8x, string_ leftPad
+, i32
+    Foo  int64 x `two words` , calculatedFrom
+stringy `a\` ,
+}
+")).
+Eval vm_compute in ("<<<M586>>>" ++ check (runes_of_ascii "MetaData u
+    { } MetaData o
+{ float 
+`100% of %d` ,repeatCount u8x, string_ leftPad
+, i32
+    Foo , int64 x `two words` , calculatedFrom
+stringy `a\` ,
+}
+")).
+Eval vm_compute in ("<<<M1310>>>" ++ check (runes_of_ascii "packet A {
+    u8 a,
+}
+packet B {
+    u16 b,
+}
+root packet P {
+    u8 K,
+    match K as M {
+        [1, 2] : A,
+        3 : B,
+        7 : A,
+    },
+}
+")).
+Eval vm_compute in ("<<<M1786>>>" ++ check (runes_of_ascii "packet
+A {match
+
+k
+    as n	{ [
+    ""a"" 
+, ""bb""
+	, ""c c""
+	, ""d""
+, ""e""
+	, ""f"",
+
+""g"" ,
+""h"" ,  ""i"",
+""j""
+	,
+
+    ""k""  ]
+	:
+B ,
+2:C
+	} ,
+} ")).
+Eval vm_compute in ("<<<M1281>>>" ++ check (runes_of_ascii "options {
+    LittleEndian = true;
+}
+packet B {
+    u8 a,
+    string s,
+}
+root packet P {
+    u16 L @lengthOf(B),
+    B,
+    u8 t,
+}
+")).
+Eval vm_compute in ("<<<M85>>>" ++ check (runes_of_ascii "
+MetaData metadata
+{
+u64 charz	`crlf
+line`  , int64 options1	, } options
+{ tag = ""CRC32""
+    // " ++ [27880; 37322]%N ++ runes_of_ascii "
+    ; u8x
+    ='\x00' }")).
+Eval vm_compute in ("<<<M983>>>" ++ check (runes_of_ascii "packet A {
     match k as n {
-        ""\
-"" : B,
-        [""\
-"", 1] : C,
-        [1,2,3,4,5,""\
-""] : D,
+        ""x\
+y"" : B,
+        [""x\
+y"", 1] : C,
+        [1,2,3,4,5,""x\
+y""] : D,
     },
 }")).
-Eval vm_compute in ("<<<M1526>>>" ++ check (runes_of_ascii "
-
-  packet
-A
-
-    { match
-
-    k
-
-as
-	n 
-{ [ ""a""
-
-    , ""bb"" 
-, ""c c"",""d""
-
-]:
-
-B , 2	: C },
-    }")).
-Eval vm_compute in ("<<<M1684>>>" ++ check (runes_of_ascii "MetaData chars {
-    x_y_z x `line1
-    line2`,
-    _x A `// not a comment`,
-}// `tick` ""quote"" 'q'")).
-Eval vm_compute in ("<<<M871>>>" ++ check (runes_of_ascii "packet A {
+Eval vm_compute in ("<<<M1222>>>" ++ check (runes_of_ascii "options { } options { MetaDataX = char ; }
+// c
+MetaData Pad { i8 metadata , string stringy , int8 As `{ , }` , }")).
+Eval vm_compute in ("<<<M891>>>" ++ check (runes_of_ascii "packet A {
   match k as n {
-    [""a"", 22, ""c c"", 4, ""e"", 66, ""g"", 8, ""i""] : B,
+    [""a"", ""bb"", ""c c"", ""d"", ""e"", ""f"", ""g"", ""h"", ""i"", ""j"", ""k""] : B,
     2 : C
   },
 }")).
-Eval vm_compute in ("<<<M1635>>>" ++ check (runes_of_ascii "packet u {
-    repeat A,
-    @lengthOf(lengthOf)
-    repeat i64 i64_,//
-    zchar[3] body,
-}")).
-Eval vm_compute in ("<<<M638>>>" ++ check (runes_of_ascii "
-packet
-    asx {match u128 as leng""thOf
+Eval vm_compute in ("<<<M179>>>" ++ check (runes_of_ascii "packet MetaDataX//	t
+{ chars @lengthOf(  lengthOf
+    ) `" ++ [233]%N ++ runes_of_ascii "`,
+repeat int64 o	,
+    }	MetaData matchKey { }")).
+Eval vm_compute in ("<<<M1798>>>" ++ check (runes_of_ascii "packet  A
 {
-//	t
-// `tick` ""quote"" 'q'
-255 : x ,
-    } ,	}")).
-Eval vm_compute in ("<<<M587>>>" ++ check (runes_of_ascii "
-packet
-    asx {match u128 as lengthOf
 
-//	t
-// `tick` ""quote"" 'q'
-255 : x ,
-    } ,	}")).
-Eval vm_compute in ("<<<M621>>>" ++ check (runes_of_ascii "
-packet
-    asx {match u128 as lengthOf
-{
-//	t
-// `tick` ""quote"" 'q'
-255 : x ,
-    }")).
-Eval vm_compute in ("<<<M1639>>>" ++ check (runes_of_ascii "MetaData charz {
-    As u128,
-    Logon options1 `say ""hi""`,
-    zchar[0] Logon,
-}")).
-Eval vm_compute in ("<<<M1897>>>" ++ check (runes_of_ascii "  packet
-A{  match
-k	as n	{[	1
+    match 
+k
+as n	{
+
+    [	""a""
 ,
 
-22 ,
-""c c"" ,
-	4
-,
-5 
-] :
-	B  ,2 :
-
-C}
-
-, }")).
-Eval vm_compute in ("<<<M1402>>>" ++ check (runes_of_ascii "packet A {
-    @leftPad()
-    char[4] x,
-    @rightPad()
-    zchar[2] y,
-}")).
-Eval vm_compute in ("<<<M108>>>" ++ check (runes_of_ascii "packet int {}
-options {leftPad ='0' ;metadata= char[] Foo=
-'0' ; }
-")).
-Eval vm_compute in ("<<<M1778>>>" ++ check (runes_of_ascii "options
-{
-    len
-	=  // " ++ [128512]%N ++ runes_of_ascii " emoji
-""packet""int
-
-=	""abc""
-
-    }
+    22 , ""c c""  , 4 
+]	: 
+B , 
+2  :
+	C} ,
+}
 
 ")).
-Eval vm_compute in ("<<<M261>>>" ++ check (runes_of_ascii "options{ asx= ""1"" //	t
-Pad =  0 stringy =
-    '\x00'
-    ; }")).
-Eval vm_compute in ("<<<M1625>>>" ++ check (runes_of_ascii "  root	packet 
-P  {  hdr
-{	u8
-a ,
-    }
-, u8  x
-
+Eval vm_compute in ("<<<M223>>>" ++ check (runes_of_ascii "// trailing space 
+packet tag	{
+//
+// 50% %s
+@calculatedFrom(
+""abc""
+)char[ 0] crc
+`u8 x,`
 , }
 ")).
-Eval vm_compute in ("<<<M1203>>>" ++ check (runes_of_ascii "packet body { // c
-i32 f32a `{ , }` , } options { }")).
-Eval vm_compute in ("<<<M1100>>>" ++ check (runes_of_ascii "// top
-MetaData // c0
-tag // c1
-{ // c2
-} // c3
+Eval vm_compute in ("<<<M839>>>" ++ check (runes_of_ascii "packet A {
+  match k as n {
+    [""a"", ""bb"", ""c c"", ""d"", ""e"", ""f"", ""g""] : B,
+    2 : C
+  },
+}")).
+Eval vm_compute in ("<<<M178>>>" ++ check (runes_of_ascii "packet trueish { @leftPad (
+' ' )
+@lengthOf( A
+)// c
+@lengthOf(
+A )string
+msg_type
+,}
 ")).
-Eval vm_compute in ("<<<M363>>>" ++ check (runes_of_ascii "MetaData
-    // @lengthOf(
-    tag {
-    }")).
-Eval vm_compute in ("<<<M1546>>>" ++ check (runes_of_ascii "
-
-  // `tick` ""quote"" 'q'
-options{
+Eval vm_compute in ("<<<M1478>>>" ++ check (runes_of_ascii "packet A {
+    match k as n {
+        [1, 22, ""c c"", 4] : B,
+        2 : C,
+    },
 }")).
-Eval vm_compute in ("<<<M1500>>>" ++ check (runes_of_ascii "  root
-
-    packet  falsey{
-	}
-
-")).
-Eval vm_compute in ("<<<M1674>>>" ++ check (runes_of_ascii "packet A {
-    u8 x `
-    x`,
-}")).
-Eval vm_compute in ("<<<M1881>>>" ++ check (runes_of_ascii "// c
-packet asx {
-}/// triple")).
-Eval vm_compute in ("<<<M1084>>>" ++ check (runes_of_ascii "packet A { // a
- u8 x, }")).
-Eval vm_compute in ("<<<M747>>>" ++ check (runes_of_ascii "true int16 u16 { f32a")).
-Eval vm_compute in ("<<<M1134>>>" ++ check (runes_of_ascii "MetaData u { // c
-}")).
-Eval vm_compute in ("<<<M1031>>>" ++ check (runes_of_ascii "packet A {
+Eval vm_compute in ("<<<M1284>>>" ++ check (runes_of_ascii "options {
+    FixedStringPadFromLeft = true;
 }
-// c" ++ [11]%N)).
-Eval vm_compute in ("<<<M1019>>>" ++ check (runes_of_ascii "packet A {
-}// c" ++ [8239]%N)).
-Eval vm_compute in ("<<<M1835>>>" ++ check (runes_of_ascii "packet pack {
+root packet P {
+    char[4] z,
+}
+")).
+Eval vm_compute in ("<<<M769>>>" ++ check (runes_of_ascii "'\x00' , root ] match int64 repeat } ] `line1
+line2` @tag( @calculatedFrom(")).
+Eval vm_compute in ("<<<M10>>>" ++ check (runes_of_ascii "
+options {
+string_ =
+char[
+    7 ] ; trueish	= false ; crc=
+char[] ;}")).
+Eval vm_compute in ("<<<M1106>>>" ++ check (runes_of_ascii "packet A { match k as n { [ // a
+ 1 // b
+ , // c
+ 2 ] // d
+ : B }, }")).
+Eval vm_compute in ("<<<M1900>>>" ++ check (runes_of_ascii "
+root
+packet 
+P
+
+    {
+	hdr {u8
+
+a, } 
+,
+u8 
+x
+
+    ,  } ")).
+Eval vm_compute in ("<<<M774>>>" ++ check (runes_of_ascii "packet A {
+  match k as n {
+    [""a""] : B
+    2 : C
+  },
 }")).
-Eval vm_compute in ("<<<M252>>>" ++ check (runes_of_ascii " // c")).
-Eval vm_compute in ("<<<M728>>>" ++ check (runes_of_ascii "		")).
+Eval vm_compute in ("<<<M1754>>>" ++ check (runes_of_ascii "
+options 
+{
+
+    a	=	1 	 // c
+
+  b = 2;// d
+    }
+")).
+Eval vm_compute in ("<<<M425>>>" ++ check (runes_of_ascii "packet
+    asx { @calculatedFrom(
+""""  ) @tag(")).
+Eval vm_compute in ("<<<M420>>>" ++ check (runes_of_ascii "packet
+    asx { @calculatedFrom(
+""""  )")).
+Eval vm_compute in ("<<<M1932>>>" ++ check (runes_of_ascii "packet A {
+    u8 x `a
+    
+    b`,
+}")).
+Eval vm_compute in ("<<<M1419>>>" ++ check (runes_of_ascii "options {
+    A = ""// no comment""
+}")).
+Eval vm_compute in ("<<<M1474>>>" ++ check (runes_of_ascii "  packet
+
+A{ 
+} 
+        // c" ++ [8232]%N ++ runes_of_ascii "
+")).
+Eval vm_compute in ("<<<M1067>>>" ++ check (runes_of_ascii "packet A {
+ u8 x `d" ++ [8203]%N ++ runes_of_ascii "`, // c" ++ [8203]%N ++ runes_of_ascii "
+}")).
+Eval vm_compute in ("<<<M927>>>" ++ check (runes_of_ascii "packet A {
+    u8 x `
+`,
+}")).
+Eval vm_compute in ("<<<M1149>>>" ++ check (runes_of_ascii "root packet a1 { // c
+}")).
+Eval vm_compute in ("<<<M1060>>>" ++ check (runes_of_ascii "packet A {
+}
+// c 	")).
+Eval vm_compute in ("<<<M1058>>>" ++ check (runes_of_ascii "packet A {
+}// c 	")).
+Eval vm_compute in ("<<<M1073>>>" ++ check (runes_of_ascii "packet A {
+}// c" ++ [6158]%N)).
+Eval vm_compute in ("<<<M350>>>" ++ check (runes_of_ascii "options { }
+")).
+Eval vm_compute in ("<<<M1044>>>" ++ check (runes_of_ascii "// c" ++ [8287]%N)).
